@@ -108,4 +108,34 @@ def validateKeyGaps (ms : List Module) : List (String × String) :=
 def fieldGaps (ms : List Module) : List (String × String) :=
   ms.flatMap fun m => (m.genFields.filter fun f => !m.initFields.contains f).map fun f => (m.name, f)
 
+/-! ## records constructed field by field on the export / import path (`Copy`)
+
+An id field of such a record must be fed from the same-named id, or from the `Id` of the object it names (`PoolId` from `pool.Id`,
+`AppId` from `app.Id` / `appID` / `appState.AppId`, `LastPairId` from `GetLastPairID(…)`) — never from another id of that object
+(`pool.PairId`, `pool.AppId`). Names are compared word-wise (the extractor splits CamelCase: `PoolId` ↦ [pool, id]). -/
+open Comdex.Gen.Genesis (Copy)
+
+/-- the target is a single id (`Id`, `AppId`, `PoolId`, `LastPairId` …; id LISTS like `AssetIds` are not) -/
+def copyIdLike (c : Copy) : Bool := c.targetW.getLast? == some "id"
+
+/-- `x.F` feeds target `T` faithfully: same name, or `F = Id` and `x` (its variable name or its declared record type) names `T`'s object -/
+def copySelOk (c : Copy) : Bool :=
+  c.src == c.targetW ||
+  (c.src == ["id"] && ((!c.base.isEmpty && c.base ++ ["id"] == c.targetW) || (!c.baseType.isEmpty && c.baseType ++ ["id"] == c.targetW)))
+
+/-- does this source feed the id field it is written to faithfully? -/
+def copyIdOk (c : Copy) : Bool :=
+  if c.kind == "sel" then copySelOk c
+  else if c.kind == "ident" then c.src == c.targetW
+  else if c.kind == "call" then c.targetW.isSuffixOf c.src && !c.targetW.isEmpty
+  else false
+
+/-- id fields of field-by-field constructed records that are NOT fed from the same-named id of the same object -/
+def idCopyGaps (ms : List Module) : List (String × String × String × String) :=
+  ms.flatMap fun m => (m.copies.filter fun c => copyIdLike c && !copyIdOk c).map fun c => (m.name, c.fn, c.recType ++ "." ++ c.target, c.srcText)
+
+/-- fields (of any kind) selected from another record's field of a DIFFERENT name -/
+def nameCopyGaps (ms : List Module) : List (String × String × String × String) :=
+  ms.flatMap fun m => (m.copies.filter fun c => c.kind == "sel" && !copySelOk c).map fun c => (m.name, c.fn, c.recType ++ "." ++ c.target, c.srcText)
+
 end Comdex.Genesis
